@@ -424,7 +424,7 @@ func (amf0) read(b []byte, index int, k string, ops ObjectPairArray, depth int) 
 		}
 		ops = append(ops, ObjectPair{k, v})
 		index += l
-	case Amf0TypeMarkerString:
+	case Amf0TypeMarkerString, Amf0TypeMarkerLongString:
 		v, l, err := Amf0.ReadString(b[index:])
 		if err != nil {
 			return nil, 0, err
